@@ -419,6 +419,8 @@ type FuncSpec struct {
 	Unreach    []string
 	// structural: the function is not executed symbolically; only its `wired` clauses are checked, over the SSA data flow
 	Structural bool
+	// split LABEL ... (or `split *`): these postconditions are proved per return statement instead of over the merged return state
+	SplitPosts map[string]bool
 	Wired      []WiredClause
 	File       string
 	Line       int
@@ -486,7 +488,7 @@ var topKeywords = map[string]bool{"sort": true, "type": true, "alias": true, "wo
 	"ghost": true, "lemma": true, "func": true, "global": true, "axiom": true, "uf": true, "extend": true}
 var subKeywords = map[string]bool{"ghostvar": true, "params": true, "pure": true, "def": true, "defsmt": true, "inline": true, "opaque": true, "trusted": true,
 	"fresh": true, "requires": true, "ensures": true, "modifies": true, "let": true, "loop": true, "use": true, "unfold": true,
-	"induction": true, "call": true, "allow": true, "unreachable": true, "structural": true, "wired": true, "reads": true, "nopanic": true, "maypanic": true, "out": true, "as": true,
+	"induction": true, "call": true, "allow": true, "unreachable": true, "structural": true, "wired": true, "split": true, "reads": true, "nopanic": true, "maypanic": true, "out": true, "as": true,
 	"rawslice": true, "sameas": true, "dispatch": true, "model": true}
 
 // extractSpecText returns the contract text of a file: everything inside /*@ ... @*/ blocks,
@@ -993,6 +995,16 @@ func ParseSpecFile(path, src, pkgPath string) (*SpecFile, error) {
 				return nil, errf(c, "structural outside func")
 			}
 			curF.Structural = true
+		case "split":
+			if curF == nil {
+				return nil, errf(c, "split outside func")
+			}
+			if curF.SplitPosts == nil {
+				curF.SplitPosts = map[string]bool{}
+			}
+			for _, l := range strings.Fields(strings.ReplaceAll(c.rest, ",", " ")) {
+				curF.SplitPosts[l] = true
+			}
 		case "wired":
 			if curF == nil {
 				return nil, errf(c, "wired outside func")
